@@ -94,18 +94,19 @@ type Node struct {
 	height  map[refmodel.Hash]int32 // hash -> height on the best chain (genesis -> 0)
 	Cap     int                     // max headers per reply
 	// scripting knobs
-	DisconnectAtMsg   int  // close the FIRST connection when its n-th message arrives (0 = never)
-	LoseFirstN        int  // DisconnectAtMsg / CloseAfterVersion apply to the first n connections instead of the first only (0 = 1)
-	RestartOnDrop     bool // the scripted loss of a connection (DisconnectAtMsg, DropAfterHeight) takes all of the node's open connections with it: the node restarts
-	refusedDials      int  // dials the rig refused on the node's behalf (MaxLive, MaxAccepts)
-	HangUpAfterMarked bool // the node closes the connection right after writing the answer that contains MarkHash (hit and run)
-	UnknownFirst      bool // right after the handshake the node sends a message with a command the service does not know (real nodes do)
-	PushOnHandshake   bool // the unsolicited pushes (PushAfterReply, PushSeq) go out as soon as the handshake is complete instead of after the first getheaders answer
-	VersionTwice      bool // on the first connection(s) the node answers the service's version with its own version message twice (and no verack)
-	CloseAfterVersion bool // the FIRST connection is lost in the middle of the handshake: the node sends its version message and never a verack
-	IgnoreStop        bool // getheaders answers do not end at the stop hash ("all that remain or at most Cap")
-	SilentFirst       bool // the FIRST connection never answers getheaders; later ones do
-	RepentAfterHeight int  // after the first getheaders answer that contains this height the node switches to RepentChain (it follows the honest chain from then on)
+	DisconnectAtMsg   int    // close the FIRST connection when its n-th message arrives (0 = never)
+	LoseFirstN        int    // DisconnectAtMsg / CloseAfterVersion apply to the first n connections instead of the first only (0 = 1)
+	RestartOnDrop     bool   // the scripted loss of a connection (DisconnectAtMsg, DropAfterHeight) takes all of the node's open connections with it: the node restarts
+	refusedDials      int    // dials the rig refused on the node's behalf (MaxLive, MaxAccepts)
+	HangUpAfterMarked bool   // the node closes the connection right after writing the answer that contains MarkHash (hit and run)
+	ProtoVer          uint32 // protocol version the node reports in its version message (0 = 70013); below 70012 the service cannot ask for header announcements
+	UnknownFirst      bool   // right after the handshake the node sends a message with a command the service does not know (real nodes do)
+	PushOnHandshake   bool   // the unsolicited pushes (PushAfterReply, PushSeq) go out as soon as the handshake is complete instead of after the first getheaders answer
+	VersionTwice      bool   // on the first connection(s) the node answers the service's version with its own version message twice (and no verack)
+	CloseAfterVersion bool   // the FIRST connection is lost in the middle of the handshake: the node sends its version message and never a verack
+	IgnoreStop        bool   // getheaders answers do not end at the stop hash ("all that remain or at most Cap")
+	SilentFirst       bool   // the FIRST connection never answers getheaders; later ones do
+	RepentAfterHeight int    // after the first getheaders answer that contains this height the node switches to RepentChain (it follows the honest chain from then on)
 	RepentChain       []refmodel.Hdr
 	MarkHash          refmodel.Hash // a getheaders answer that contains the header with this hash is logged with " [marked]"
 	VersionLag        int           // the version message reports a height this many blocks below the node's chain (blocks found since)
@@ -418,6 +419,11 @@ func (c *Conn) versionMsg() *wire.MsgVersion {
 	v := wire.NewMsgVersion(me, you, nonce, h)
 	v.Services = c.node.Services
 	v.ProtocolVersion = int32(pver)
+	c.node.mu.Lock()
+	if c.node.ProtoVer != 0 {
+		v.ProtocolVersion = int32(c.node.ProtoVer)
+	}
+	c.node.mu.Unlock()
 	v.UserAgent = "/verif-node:" + c.node.Name + "/"
 	return v
 }
